@@ -102,6 +102,13 @@ func runConcFactory(c *concCase) {
 	s.PCT = c.Seed%2 == 1
 	setYield(s.Yield)
 	defer setYield(nil)
+	type producedRec struct {
+		part    string
+		rec     *ae.DataRowRecord
+		payload []byte
+	}
+	var produced []producedRec
+	var prodMu sync.Mutex
 	shareSession := c.Family == "keycache" && r.Bool() // several goroutines on ONE session (its IK cache is shared by them)
 	var common *ae.Session
 	if shareSession {
@@ -130,6 +137,9 @@ func runConcFactory(c *concCase) {
 				if err != nil {
 					vs.add("thread %d: Encrypt on its own open session failed: %v", t, err)
 				} else {
+					prodMu.Lock()
+					produced = append(produced, producedRec{p, rec, payload})
+					prodMu.Unlock()
 					pt, err := sess.Decrypt(ctx, *rec)
 					atomic.AddInt64(&ops, 1)
 					if err != nil || !bytes.Equal(pt, payload) {
@@ -156,6 +166,24 @@ func runConcFactory(c *concCase) {
 	if !ok {
 		vs.add("schedule got stuck: no goroutine can make progress (deadlock)")
 	}
+	// key hierarchy of everything produced under the schedule: the record names its own partition's intermediate key, that
+	// key is in the metastore, and a fresh process (metastore + KMS only) opens data key and payload through exactly that chain
+	for _, pr := range produced {
+		want := "_IK_" + pr.part + "_svc_prod"
+		if pr.rec.Key == nil || pr.rec.Key.ParentKeyMeta == nil {
+			vs.add("[hierarchy] partition %s: malformed record", pr.part)
+			continue
+		}
+		if pr.rec.Key.ParentKeyMeta.ID != want {
+			vs.add("[hierarchy] partition %s: record names intermediate key %s", pr.part, pr.rec.Key.ParentKeyMeta.ID)
+			continue
+		}
+		pt, err := x.refDecrypt(pr.rec)
+		if err != nil || !bytes.Equal(pt, pr.payload) {
+			vs.add("[hierarchy] partition %s: the data key of a record produced under this schedule is not wrapped under the stored intermediate key it names (%s created %d): %v",
+				pr.part, pr.rec.Key.ParentKeyMeta.ID, pr.rec.Key.ParentKeyMeta.Created, err)
+		}
+	}
 	if common != nil {
 		common.Close()
 	}
@@ -179,6 +207,112 @@ func runConcFactory(c *concCase) {
 		vs.add("after the factory was closed and every holder closed its session, secrets %v are still live", live)
 	}
 	c.Ops = int(ops)
+	c.Viol = vs.v
+}
+
+// ---- C20: a stale key is re-read ONCE however many goroutines find it stale together -----------------------------
+
+func runConcReload(c *concCase) {
+	r := gen.New(c.Seed)
+	x := newEnvExec(int64(1790000000) * secNs)
+	defer x.close()
+	pol := envPolicies()["default"]
+	if c.Cfg == "shared-ik" {
+		pol.SharedIK = true
+	}
+	fob := x.do(EnvOp{K: "newfactory", Policy: &pol, Svc: gen.H("svc"), Prod: gen.H("prod")})
+	f := x.facts[fob.N]
+	ctx := context.Background()
+	oneSession := c.Cfg == "one-session" // all goroutines use ONE session: its intermediate key must be re-read once as well
+	var sessions []*ae.Session
+	var recs []*ae.DataRowRecord
+	var vs violations
+	for t := 0; t < c.Threads; t++ {
+		p := fmt.Sprintf("part%d", t)
+		if oneSession {
+			p = "part0"
+		}
+		if oneSession && t > 0 {
+			sessions, recs = append(sessions, sessions[0]), append(recs, recs[0])
+			continue
+		}
+		sess, err := f.GetSession(p)
+		if err != nil {
+			c.Viol = append(c.Viol, "GetSession failed: "+err.Error())
+			return
+		}
+		rec, err := sess.Encrypt(ctx, []byte("warm-"+p))
+		if err != nil {
+			c.Viol = append(c.Viol, "warm-up encrypt failed: "+err.Error())
+			return
+		}
+		sessions, recs = append(sessions, sess), append(recs, rec)
+	}
+	// within the interval: nothing is re-read
+	x.tr.Take()
+	for t := range sessions {
+		if _, err := sessions[t].Decrypt(ctx, *recs[t]); err != nil {
+			vs.add("decrypt within the interval failed: %v", err)
+		}
+	}
+	for _, e := range x.tr.Take() {
+		if e.K == "KDec" || e.K == "MLoad" || e.K == "MLoadLatest" {
+			vs.add("a repeated decrypt within the revoke-check interval made an external call (%s)", e.K)
+		}
+	}
+	x.now += pol.RCI + secNs // every cached key is stale now
+	s := sched.New(r.Fork())
+	s.PCT = c.Seed%2 == 1
+	setYield(s.Yield)
+	defer setYield(nil)
+	for t := 0; t < c.Threads; t++ {
+		t := t
+		s.Go(fmt.Sprintf("t%d", t), func() {
+			pt, err := sessions[t].Decrypt(ctx, *recs[t])
+			if err != nil || !bytes.HasPrefix(pt, []byte("warm-")) {
+				vs.add("thread %d: decrypt after the interval failed: %v", t, err)
+			}
+		})
+	}
+	if !s.Run(c.Steps) {
+		vs.add("schedule got stuck")
+	}
+	setYield(nil)
+	c.Trace = s.Trace
+	kdec, skLoads, ikLoads := 0, 0, map[string]int{}
+	skID := gen.H("_SK_svc_prod")
+	for _, e := range x.tr.Take() {
+		switch e.K {
+		case "KDec":
+			kdec++
+		case "MLoad":
+			if id, _ := e.A[0].(string); id == skID {
+				skLoads++
+			} else {
+				ikLoads[id]++
+			}
+		}
+	}
+	if kdec > 1 {
+		vs.add("the system key was unwrapped by the KMS %d times in one revoke-check interval by %d goroutines of one factory (at most once allowed)", kdec, c.Threads)
+	}
+	if skLoads > 1 {
+		vs.add("the system key record was re-read %d times in one interval (once allowed)", skLoads)
+	}
+	if oneSession || c.Cfg == "shared-ik" {
+		for id, n := range ikLoads {
+			if n > 1 {
+				vs.add("intermediate key record %s was re-read %d times in one interval through one cache (once allowed)", id, n)
+			}
+		}
+	}
+	for t := range sessions {
+		if !oneSession || t == 0 {
+			sessions[t].Close()
+		}
+	}
+	f.Close()
+	c.Ops = c.Threads
 	c.Viol = vs.v
 }
 
@@ -300,6 +434,7 @@ func runConc(a *args) error {
 		"keycache":  {"shared-lru1", "shared-slru2", "sk-lru1", "session-lru1"},
 		"sesscache": {"sesscache1", "sesscache2", "sesscache1-shared"},
 		"secret":    {"protectedmemory", "memguard"},
+		"reload":    {"default", "shared-ik", "one-session"},
 	}
 	for i := 0; i < a.n; i++ {
 		cfgs := fams[a.extra]
@@ -317,6 +452,8 @@ func runConcOne(c *concCase) {
 	switch c.Family {
 	case "secret":
 		runConcSecret(c)
+	case "reload":
+		runConcReload(c)
 	default:
 		runConcFactory(c)
 	}
